@@ -64,17 +64,23 @@ def check_derived(rep, g, tier, seed):
     """LieGroupBase::rplus / lplus / rminus / lminus / between: the returned Jacobians are the true derivatives"""
     for fn in ("rplus", "lplus", "rminus", "lminus", "between"):
         C.check_anchor(rep, "LieGroupBase::%s" % fn, "include/manif/impl/lie_group_base.h")
-    HARNESS.prefetch(g, ["rplus", "lplus", "rminus", "lminus", "between"])
+    HARNESS.prefetch(g, ["rplus", "lplus", "rminus_rel", "lminus_rel", "between"])
     for scn in ("rplus", "lplus"):
         for c in _paths(rep, g, scn, [("x", "G"), ("t", "T")], seed, scn):
             rep.progress("%s %s[%s]" % (g, scn, c.path.script))
             taylor.with_taylor(c, TAU, lambda c=c: (c.deriv_group("J_m", c.vec("out"), c.out("Ja"), "x"),
                                                      c.deriv_group("J_t", c.vec("out"), c.out("Jb"), "t")))
+    # rminus / lminus: the first operand is written as a product, A = B*Z (rminus) resp. A = Z*B (lminus); (B, Z) -> (A, B)
+    # is a bijection of G x G, so "for all A, B" is "for all B, Z", and the relative element Z - whose angle selects log's
+    # small-angle branch - is an input variable (Taylor bounds then apply).  With g(B, Z) = f(A(B, Z), B) and compose()'s
+    # Jacobians Jcz = dA/dZ, Jcy = dA/dB (invertible; proved under C05/<g>/compose):
+    #     D_Z g = Ja * Jcz         D_B g = Ja * Jcy + Jb       <=>   Ja = df/dA,  Jb = df/dB
     for scn in ("rminus", "lminus"):
-        for c in _paths(rep, g, scn, [("x", "G"), ("y", "G")], seed, scn):
+        for c in _paths(rep, g, scn + "_rel", [("y", "G"), ("z", "G")], seed, scn):
             rep.progress("%s %s[%s]" % (g, scn, c.path.script))
-            taylor.with_taylor(c, TAU, lambda c=c: (c.deriv_vec("J_a", c.vec("out"), c.out("Ja"), "x"),
-                                                     c.deriv_vec("J_b", c.vec("out"), c.out("Jb"), "y")))
+            Ja, Jb, Jcy, Jcz = c.out("Ja"), c.out("Jb"), c.out("Jcy"), c.out("Jcz")
+            taylor.with_taylor(c, TAU, lambda c=c: (c.deriv_vec("J_a", c.vec("out"), np.dot(Ja, Jcz), "z"),
+                                                     c.deriv_vec("J_b", c.vec("out"), np.dot(Ja, Jcy) + Jb, "y")))
     for c in _paths(rep, g, "between", [("x", "G"), ("y", "G")], seed, "between"):
         taylor.with_taylor(c, TAU, lambda c=c: (c.deriv_group("J_a", c.vec("out"), c.out("Ja"), "x"),
                                                  c.deriv_group("J_b", c.vec("out"), c.out("Jb"), "y")))
